@@ -242,6 +242,19 @@ func (cr *checkRun) collectTargets() {
 			continue
 		}
 		impls := e.implementers(k)
+		if len(ct.Implementers) > 0 {
+			var keep []*ssa.Function
+			for _, fn := range impls {
+				for _, pat := range ct.Implementers {
+					if strings.Contains(fn.String(), pat) {
+						keep = append(keep, fn)
+						break
+					}
+				}
+			}
+			cr.notes = append(cr.notes, "interface contract "+strings.ReplaceAll(k, repoMod+"/", "")+" is checked on the implementations that are injected ("+strings.Join(ct.Implementers, ", ")+"); the wiring is read, not proved")
+			impls = keep
+		}
 		for _, fn := range impls {
 			cr.targets = append(cr.targets, target{fn: fn, ct: ct, key: k, why: "implements " + strings.ReplaceAll(k, repoMod+"/", ""), selfIface: e.ifaceOfKey(k)})
 		}
@@ -306,13 +319,66 @@ func runCheck(repo, verifDir, prop, tier string) int {
 		cr.vcs = append(cr.vcs, vc)
 		cr.nLemmas++
 	}
-	for _, t := range cr.targets {
-		ct := t.ct
+	done := map[string]bool{}
+	verify := func(t target) {
 		e.selfIface = t.selfIface
-		vc := e.verifyFunc(t.fn, ct, cr.slice, cr.safety, t.extra)
+		vc := e.verifyFunc(t.fn, t.ct, cr.slice, cr.safety, t.extra)
 		e.selfIface = nil
 		vc.discharge(SolveOpts{Dir: qdir, Timeouts: timeouts, Parallel: 16, Seed: seed}, cr.tally)
 		cr.vcs = append(cr.vcs, vc)
+	}
+	for _, t := range cr.targets {
+		done[t.fn.String()+"|"+t.key] = true
+		verify(t)
+	}
+	// every in-repo contract that was *assumed* at a call site during this run is verified in this run
+	// too (its clauses of this property's slice, [base] included), until nothing new is used.
+	for round := 0; round < 8; round++ {
+		var more []target
+		var keys []string
+		for k := range e.specs.contracts {
+			keys = append(keys, k)
+		}
+		sort.Strings(keys)
+		for _, k := range keys {
+			ct := e.specs.contracts[k]
+			if !ct.used || ct.Trusted || ct.Opaque {
+				continue
+			}
+			fns := e.instances(k)
+			var sel types.Type
+			if len(fns) == 0 {
+				fns = e.implementers(k)
+				sel = e.ifaceOfKey(k)
+				if len(ct.Implementers) > 0 {
+					var keep []*ssa.Function
+					for _, fn := range fns {
+						for _, pat := range ct.Implementers {
+							if strings.Contains(fn.String(), pat) {
+								keep = append(keep, fn)
+								break
+							}
+						}
+					}
+					fns = keep
+				}
+			}
+			for _, fn := range fns {
+				id := fn.String() + "|" + k
+				if done[id] {
+					continue
+				}
+				done[id] = true
+				more = append(more, target{fn: fn, ct: ct, key: k, why: "assumed at a call site of this slice", selfIface: sel})
+			}
+		}
+		if len(more) == 0 {
+			break
+		}
+		for _, t := range more {
+			cr.targets = append(cr.targets, t)
+			verify(t)
+		}
 	}
 	return cr.report()
 }
